@@ -278,6 +278,8 @@ class FakeClient:
         self.injected = []
         self.body_protocols = body_protocols
         self.stream_pattern = stream_pattern
+        self.plan_only = False      # record requests, move no bytes (real-scale planning)
+        self.virtual_sizes = {}
 
     # ------------------------------------------------------------ plumbing
     def note_injected(self, exc, label, rec, retryable):
@@ -358,6 +360,8 @@ class FakeClient:
     # ---------------------------------------------------------- operations
     def head_object(self, **kw):
         def eff(rec):
+            if self.plan_only:
+                return {'ContentLength': self.virtual_sizes[kw['Key']], 'ETag': '"obj"'}
             data = self._get_obj(kw['Bucket'], kw['Key'])
             return {'ContentLength': len(data), 'ETag': '"obj"'}
         return self._run('head_object', kw, eff)
@@ -370,6 +374,8 @@ class FakeClient:
 
     def get_object(self, **kw):
         def eff(rec):
+            if self.plan_only:
+                return {'Body': FakeStreamingBody(self, b'', rec), 'ContentLength': 0}
             data = self._get_obj(kw['Bucket'], kw['Key'])
             rng = kw.get('Range')
             if rng is not None:
@@ -402,6 +408,8 @@ class FakeClient:
 
     def copy_object(self, **kw):
         def eff(rec):
+            if self.plan_only:
+                return {'CopyObjectResult': {'ETag': self.s3.new_etag('copy')}}
             data = self._copy_source_bytes(kw)
             self.s3.put(kw['Bucket'], kw['Key'], data)
             return {'CopyObjectResult': {'ETag': self.s3.new_etag('copy')}}
@@ -409,6 +417,9 @@ class FakeClient:
 
     def put_object(self, **kw):
         def eff(rec):
+            if self.plan_only:
+                rec['body_len'] = len(kw['Body'])
+                return {'ETag': self.s3.new_etag('put')}
             data = self._drive_body('PutObject', kw.get('Body'), rec)
             self.s3.put(kw['Bucket'], kw['Key'], data)
             rec['body_len'] = len(data)
@@ -441,6 +452,11 @@ class FakeClient:
         def eff(rec):
             up = self._upload(kw['UploadId'], 'UploadPart')
             rec['upload'] = up['id']
+            if self.plan_only:
+                rec['body_len'] = len(kw['Body'])
+                etag = self.s3.new_etag('p')
+                up['parts'][kw['PartNumber']] = {'etag': etag, 'data': b'', 'cs': None, 'algo': None}
+                return {'ETag': etag}
             data = self._drive_body('UploadPart', kw.get('Body'), rec)
             if up['state'] != 'open':
                 self.s3.anomalies.append(('part-after-finish', up['id'], up['state']))
@@ -462,6 +478,10 @@ class FakeClient:
         def eff(rec):
             up = self._upload(kw['UploadId'], 'UploadPartCopy')
             rec['upload'] = up['id']
+            if self.plan_only:
+                etag = self.s3.new_etag('p')
+                up['parts'][kw['PartNumber']] = {'etag': etag, 'data': b'', 'cs': None, 'algo': None}
+                return {'CopyPartResult': {'ETag': etag}}
             src = self._copy_source_bytes(kw)
             rng = kw.get('CopySourceRange')
             if rng is not None:
